@@ -29,7 +29,8 @@ SPEC = {'id': 'C13',
          'the 10000 limit, numbers around the float64 overflow threshold, escapes and surrogates, invalid UTF-8, '
          'mutations / truncations / random bytes, and descriptions (type 0..6, SDP text of any content) through '
          'Serialize then Deserialize; a case is non-trivial when it is brace-delimited or does not end in an error '
-         '(deserialise) / has a non-empty SDP (serialise); distinct = distinct (class, case line)',
+         '(deserialise) / has a non-empty SDP (serialise); distinct = distinct (class, case line)'
+         " Proxy side: connection lines at the RFC 4566 position and in media sections, complete / multicast / truncated after every field; the case distribution records which inputs pion's parser accepts.",
  'level_text': 'Round trip (four types, every SDP text, also on raw bytes) and totality of DeserializeSessionDescription '
                'are kernel-checked theorems over a model that follows util.go statement by statement on top of an '
                'executable model of encoding/json (scanner grammar, unquoting, map binding, float64 overflow, Marshal '
